@@ -74,7 +74,8 @@ CHECKS = {
                 'LoopSurvives, NoResidue and, under fairness, CanaryCompletes). (i) tlc -simulate behaviours are executed step by step on '
                 'the REAL LocalFdExecutor with scripted works raising where the behaviour says; TLC (TraceExecutor) validates the abstract '
                 'state after every step. (ii) the REAL handler stack: adversarial connections (C06 input grammar, aborts at every point, '
-                'every socket error at every call, failing upstreams; forward/tunnel/web/reverse) share the worker with a canary and are '
+                'every socket error at every call, failing upstreams; forward/tunnel/web/reverse; upgraded WebSocket connections whose segments end '
+                'inside a frame) share the worker with a canary and are '
                 'followed by another connection; TLC (TraceIsolation) compares with the canary alone. The model also covers descriptors '
                 'that vanish from the selector, event-mask changes and a work that replaces its descriptor (NoStaleRegistrations); every '
                 'adversary job runs under a watchdog, so a worker that never returns is a reported stall, not a hung check.',
@@ -103,7 +104,8 @@ CHECKS = {
         'text': 'Authorized(headers, credentials) is defined in TLA+ (TraceAuth) from the RAW configured user:password (base64 computed in '
                 'TLA+) and the reference parse of the client bytes. Every credential situation (absent, scheme casings, other schemes, '
                 'token truncated/extended/case-flipped/re-encoded, extra parameters, duplicates) x header-name casing x method incl. '
-                'CONNECT x segmentation x with/without a recording user plugin runs through the REAL handler with flags from the real '
+                'CONNECT x segmentation x with/without a recording user plugin x whole / 24-byte sends (the 407 leaving in several writes) runs '
+                'through the REAL handler with flags from the real '
                 'FlagParser; TLC decides: unauthenticated => well-formed 407 + close, no connect, nothing forwarded, no later-plugin hook; '
                 'authenticated => served, credentials never reach the origin (first and later request).',
         'design_ref': 'DESIGN.md section 6, C08',
